@@ -46,7 +46,7 @@ func runC05(c *Ctx) {
 		// Tier B: real mrp killed by real signals and restarted
 		n := 1
 		if c.Thorough {
-			n = 8
+			n = 3
 		}
 		if env, err := tbSetup(c); err != nil {
 			r.note("tier B unavailable: %v", err)
@@ -56,12 +56,12 @@ func runC05(c *Ctx) {
 		}
 	}()
 	c05SignalSequences(c)
-	r.Rule = "signal sequences: an mrp-like helper process (SetupSignalHandlers, InvokePipeline) inside a critical section receives every sequence of one or two handled signals (TERM/INT/HUP), the second while the first waits for the critical section: it must terminate after the section ends with _lock removed; programs as for C02; for each program one uninterrupted reference run, then runs with mrp killed (SIGKILL semantics: object dropped, _lock removed by the operator, in-flight jobs die with a dead pid recorded, or survive with probability 0.3) before event k for k ranging over the reference history (quick: a PRNG sample of crash points per program + double crashes; thorough: every event index), restarted the way mrp restarts (Reattach with source check, Reset, RestartLocalJobs, LoadMetadata), every fourth single-crash run in Config.FullStageReset mode (there finished work of a Running/Failed node is redone by design and not reported); monitors: the restarted pipestance completes, its top-level outputs equal the reference run's, no job whose successful completion was recorded before the crash is executed again, _lock is gone after completion; every history (with crash/restart/reset events) is replayed in the Lean Sched model (`mode fullreset` for the FullStageReset runs) and must end in a model state in which every node is finished; non-trivial = crash happened while >=1 job was in flight or finished-but-unnoticed; distinct = (program, crash points, history) hash"
+	r.Rule = "signal sequences: an mrp-like helper process (SetupSignalHandlers, InvokePipeline) inside a critical section receives every sequence of one or two handled signals (TERM/INT/HUP), the second while the first waits for the critical section: it must terminate after the section ends with _lock removed; programs as for C02; for each program one uninterrupted reference run, then runs with mrp killed (SIGKILL semantics: object dropped, _lock removed by the operator, in-flight jobs die with a dead pid recorded, or survive with probability 0.3) before event k for k ranging over the reference history (quick: a PRNG sample of crash points per program + double crashes; thorough: every event index of histories up to 60 events, 60 evenly spread points of longer ones), restarted the way mrp restarts (Reattach with source check, Reset, RestartLocalJobs, LoadMetadata), every fourth single-crash run in Config.FullStageReset mode (there finished work of a Running/Failed node is redone by design and not reported); monitors: the restarted pipestance completes, its top-level outputs equal the reference run's, no job whose successful completion was recorded before the crash is executed again, _lock is gone after completion; every history (with crash/restart/reset events) is replayed in the Lean Sched model (`mode fullreset` for the FullStageReset runs) and must end in a model state in which every node is finished; non-trivial = crash happened while >=1 job was in flight or finished-but-unnoticed; distinct = (program, crash points, history) hash"
 	n := 40
 	perProg := 4
 	if c.Thorough {
-		n = 400
-		perProg = 0 // all crash points
+		n = 120
+		perProg = 0 // all crash points (histories of up to 60 events; longer ones: 60 evenly spread points)
 	}
 	progs := rtPrograms(c, n/2, GenOpts{Preflight: true})
 	progs = append(progs, rtProgramsGenOnly(c, n-n/2, GenOpts{Files: true, Retain: true})...)
@@ -88,7 +88,11 @@ func runC05(c *Ctx) {
 		ne := ref.NEvents
 		var points [][]int
 		if perProg == 0 {
-			for k := 1; k < ne; k++ {
+			step := 1
+			if ne > 60 {
+				step = (ne + 59) / 60
+			}
+			for k := 1 + c.Rng.Intn(step); k < ne; k += step {
 				points = append(points, []int{k})
 			}
 		} else {
@@ -120,8 +124,8 @@ func runC05(c *Ctx) {
 	}
 	results := RunSpecs(specs, 14)
 	for i, cs := range cases {
-		res := results[i]
-		r.hist("final_" + finalClass(res.Final))
+		res := confirmAlone(c, cs.spec, results[i])
+		r.hist("final_" + finalKey(res.Final))
 		if res.Final == "process-exit" || len(res.Events) == 0 {
 			if res.Final == "process-exit" {
 				r.violate(Violation{Kind: "property", Key: "C05:mrp-exits-after-restart",
@@ -155,7 +159,7 @@ func runC05(c *Ctx) {
 			kp = "C05:fullreset:"
 		}
 		if res.Final != "complete" {
-			r.violate(Violation{Kind: "property", Key: kp + "not-completed:" + finalClass(res.Final),
+			r.violate(Violation{Kind: "property", Key: kp + "not-completed:" + finalKey(res.Final),
 				What:  fmt.Sprintf("after kill+restart the pipestance ended %q (%s) although the uninterrupted run completes", finalClass(res.Final), firstLine(res.ErrMsg)),
 				Input: input})
 			continue
@@ -400,8 +404,8 @@ func runC06(c *Ctx) {
 	}
 	results := RunSpecs(specs, 14)
 	for i, cs := range cases {
-		res := results[i]
-		r.hist("final_" + finalClass(res.Final))
+		res := confirmAlone(c, cs.spec, results[i])
+		r.hist("final_" + finalKey(res.Final))
 		r.hist("kind_" + cs.kind)
 		if len(res.Events) == 0 {
 			continue
@@ -479,7 +483,7 @@ func runC06(c *Ctx) {
 		}
 		// 4. after restart without the fault: completes with the reference outputs, only unfinished work re-executed
 		if res.Final != "complete" {
-			r.violate(Violation{Kind: "property", Key: "C06:restart-not-complete:" + cs.kind + ":" + finalClass(res.Final),
+			r.violate(Violation{Kind: "property", Key: "C06:restart-not-complete:" + cs.kind + ":" + finalKey(res.Final),
 				What:  fmt.Sprintf("after removing the fault and restarting, the pipestance ended %q (%s)", finalClass(res.Final), firstLine(res.ErrMsg)),
 				Input: input})
 		} else {
